@@ -11,6 +11,7 @@ SQLite form also covers the empty root key.
 usage: index_persist.py [N]  (seed from VERIF_SEED) -> JSON report, last line of stdout
 """
 import logging; logging.disable(logging.CRITICAL)  # noqa: E702
+import _memfs  # noqa: E402
 import hashlib, json, os, random, sys, tempfile  # noqa: E401
 
 SRC = os.environ.get("PYVC_REPO_SRC", "/repo/src")
@@ -160,6 +161,7 @@ def main():
     failures = []
     with tempfile.TemporaryDirectory(dir="/var/tmp") as tmp:
         for i in range(n):
+            _memfs.reset()
             try:
                 failures += run_one(rng, tmp, i)
             except Exception as e:  # noqa: BLE001
